@@ -351,6 +351,9 @@ func runC05(c *Ctx) error {
 		return err
 	}
 	c.Rep.Exhaustive = true
+	if err := c.c05BoolChains(); err != nil {
+		return err
+	}
 	return c.c05Values()
 }
 
@@ -661,6 +664,88 @@ func (c *Ctx) c05Values() error {
 			if i < 2 && k == 0 {
 				c.Rep.Sample(map[string]string{"expr": text, "prelude": prelude, "value": ws})
 			}
+		}
+	}
+	return nil
+}
+
+// every tree of 2..4 short-circuit operators over the leaves p, q, r, s, t in order (parenthesised exactly where the
+// tree needs it), on every assignment of the leaves, at top level, as a function result over locals and as the
+// condition of an if: the value is Go's, whatever jumps the compiler threads through the chain
+func boolTrees(leaves []string) []*texpr {
+	if len(leaves) == 1 {
+		return []*texpr{{leaf: leaves[0], typ: 'b'}}
+	}
+	var out []*texpr
+	for cut := 1; cut < len(leaves); cut++ {
+		for _, l := range boolTrees(leaves[:cut]) {
+			for _, r := range boolTrees(leaves[cut:]) {
+				for _, op := range []string{"&&", "||"} {
+					out = append(out, &texpr{op: op, l: l, r: r, typ: 'b'})
+				}
+			}
+		}
+	}
+	return out
+}
+
+func (c *Ctx) c05BoolChains() error {
+	names := []string{"p", "q", "r", "s", "t"}
+	maxLeaves := 4
+	if c.Thorough() {
+		maxLeaves = 5
+	}
+	for nl := 3; nl <= maxLeaves; nl++ {
+		for _, e := range boolTrees(names[:nl]) {
+			text := e.text(0)
+			ex, err := parser.ParseExpr(text)
+			if err != nil || goatTreeOfGo(ex) != e.goatTree() {
+				c.Rep.Notes = append(c.Rep.Notes, "harness printer disagreement on "+text)
+				continue
+			}
+			var params []string
+			for _, n := range names[:nl] {
+				params = append(params, n+" bool")
+			}
+			src := fmt.Sprintf("func f(%s) bool { return %s }\nfunc g(%s) int { if %s { return 1 }; return 0 }\nfunc h(%s) int { n := 0; for i := 0; i < 3 && (%s); i++ { n++ }; return n }\n",
+				strings.Join(params, ", "), text, strings.Join(params, ", "), text, strings.Join(params, ", "), text)
+			vm := goat.New()
+			if _, err := vm.Eval(fstest.MapFS{}, "e", src); err != nil {
+				c.Rep.Violate(Violation{Kind: "oracle", Cut: "bool-chains", Input: src, Impl: err.Error(), Oracle: "compiles"})
+				continue
+			}
+			for m := 0; m < 1<<nl; m++ {
+				benv := map[string]bool{}
+				var args []goat.Value
+				var pre []string
+				for i, n := range names[:nl] {
+					benv[n] = m>>i&1 == 1
+					args = append(args, goat.Bool(benv[n]))
+					pre = append(pre, fmt.Sprintf("var %s bool = %v", n, benv[n]))
+				}
+				want := e.eval(nil, benv).b
+				wi := "0"
+				wh := "0"
+				if want {
+					wi, wh = "1", "3"
+				}
+				for _, q := range []struct{ fn, want string }{{"main.f", strconv.FormatBool(want)}, {"main.g", wi}, {"main.h", wh}} {
+					got := "error"
+					if rets, err := vm.Call(q.fn, 1, args...); err == nil && len(rets) == 1 {
+						got = rets[0].String()
+					}
+					c.Rep.Oracle["bool-chains"]++
+					if got != q.want {
+						c.Rep.Violate(Violation{Kind: "oracle", Cut: "bool-chains", Input: map[string]string{"expr": text, "function": q.fn, "src": src, "args": strings.Join(pre, "; ")}, Impl: got, Oracle: q.want})
+					}
+				}
+				if got := evalGoat(strings.Join(pre, "; "), text); got != strconv.FormatBool(want) {
+					c.Rep.Violate(Violation{Kind: "oracle", Cut: "bool-chains", Input: map[string]string{"prelude": strings.Join(pre, "; "), "expr": text}, Impl: got, Oracle: strconv.FormatBool(want)})
+				}
+				c.Rep.Oracle["bool-chains"]++
+			}
+			c.Rep.Seen("chain:"+text, true)
+			c.Rep.Count("value-bool-chain-tree")
 		}
 	}
 	return nil
